@@ -270,6 +270,33 @@ func (g *HGen) Lean() string {
 	sort.Strings(ro)
 	fmt.Fprintf(&b, "/-- functions and methods of the state-bearing packages that the tables class as reads and that the analysed code calls (driven on the real code by harness/c20) -/\ndef roCallees : List String := %s\n\n", hLeanStrList(ro))
 	fmt.Fprintf(&b, "/-- what `luaCheckView` returns to the C guards (`nestedView` = a plain conversion of the own context's counter) -/\ndef checkViewRet : List String := %s\n\n", hLeanStrList(f.CheckViewRet))
+	if sl := f.Slot; sl != nil {
+		b.WriteString("/-! ### Context slots (contract/vm.go allocContextSlot, contract/contract.go) -/\n\n")
+		for _, c := range sl.Consts {
+			fmt.Fprintf(&b, "def %s : Int := %s\n", c[0], c[1])
+		}
+		step, init := sl.StepLean, sl.InitLean
+		if step == "" {
+			step = "(-1)"
+		}
+		if init == "" {
+			init = "(-1)"
+		}
+		fmt.Fprintf(&b, "\n/-- one step of the slot scan of `allocContextSlot`, translated from: `%s`%s -/\ndef slotStep (maxContext index : Int) : Int := %s\n\n",
+			strings.ReplaceAll(sl.StepSrc, "\n", " "), map[bool]string{true: "", false: " — NOT TRANSLATABLE (" + sl.StepWhy + "): the definition is a placeholder that fails the theorems"}[sl.StepLean != ""], step)
+		fmt.Fprintf(&b, "/-- the scan could be translated -/\ndef slotStepTranslated : Bool := %v\n\n", sl.StepLean != "")
+		fmt.Fprintf(&b, "/-- initial value of `lastQueryIndex` (init() of package contract) -/\ndef slotInit : Int := %s\n\n", init)
+		fact("ctxSlotWrites", "every assignment to `contexts[…]` (or to `contexts` as a whole, index `*`) in the analysed files: (function, index, value)", hT3(sl.SlotWrites), 3)
+		fact("ctxServiceWrites", "every assignment to `vmContext.service`, incl. composite literals: (function, value)", hT2(sl.SvcWrites), 2)
+		fact("lastQueryIndexWrites", "every assignment to `lastQueryIndex` outside init(): (function, value)", hT2(sl.LastWrites), 2)
+		var sc [][]string
+		for _, n := range []string{"allocContextSlot", "freeContextSlot"} {
+			for _, c := range f.CallersOf[n] {
+				sc = append(sc, []string{n, c})
+			}
+		}
+		fact("slotCallers", "callers of allocContextSlot / freeContextSlot among the analysed functions: (function, caller)", sc, 2)
+	}
 	var ex [][]string
 	for _, fn := range g.Real.Funcs {
 		if why, ok := hostTables.RefuseExempt[fn.Name]; ok {
